@@ -80,8 +80,10 @@ def run_shard(params, rec):
     for i in range(params["n"]):
         # delay-slot architectures: a counted loop puts a (possibly faulting) instruction in a delay slot
         with_loop = spec.family == "mips32" and rng.random() < 0.5
-        prog = jitlib.make_prog(spec, rng, pool, rng.randrange(2, 9), with_loop=with_loop,
+        mode = rng.choice([None, "straddle", "straddle", "split", "split"])
+        prog = jitlib.make_prog(spec, rng, pool, rng.randrange(2, 9), with_loop=with_loop, mode=mode,
                                 fault_bias=rng.choice([0.3, 0.5, 0.8]))
+        rec.count("mode:%s" % mode)
         maxline = rng.choice([1, 2, 4, 50])
         opts = dict(jit_maxline=maxline, max_exec_per_call=rng.choice([0, 1, 3]))
         rec.ev()
